@@ -1,4 +1,5 @@
 import OxiVerif.Lemmas.C25
+import OxiVerif.Model.C25Old
 /-
 C25 — single-byte text encodings match the normative tables (ISO 32000-1 Annex D).
 
@@ -204,7 +205,7 @@ theorem C25_witness_lossy_substitutes_qmark :
     AnnexD.enc .macRoman 0x100 = none ∧ lossyChar .macRoman 0x100 = lossyChar .macRoman 0x3F := by
   decide +kernel
 
-/-! ## MacRomanEncoding — partial -/
+/-! ## MacRomanEncoding — encode full (since the repair of the tables), decode partial (0xDB) -/
 
 /- FULL (false of the code): `∀ b u, AnnexD.dec .macRoman b = some u → decodeByte .macRoman b = some u`. -/
 /-- The MacRoman decode table agrees with Annex D on every defined slot except 0xDB. -/
@@ -220,9 +221,11 @@ theorem C25_macroman_decode_partial (b u : Nat) (hb : b ≠ 0xDB) (h : AnnexD.de
 
 example : AnnexD.dec .macRoman 0xCA = some 0xA0 ∧ decodeByte .macRoman 0xCA = some 0xA0 := by decide +kernel
 
-/-- Witness: slot 0xDB is `currency` (U+00A4) in Annex D, the code decodes it to the euro sign. -/
+/-- Witness: slot 0xDB is `currency` (U+00A4) in Annex D and the encoder writes U+00A4 there, but the
+code decodes 0xDB to the euro sign (pinned by `test_mac_roman_decode_high_range`). -/
 theorem C25_witness_macroman_decode_DB :
-    AnnexD.dec .macRoman 0xDB = some 0xA4 ∧ decodeByte .macRoman 0xDB = some 0x20AC := by
+    AnnexD.dec .macRoman 0xDB = some 0xA4 ∧ decodeByte .macRoman 0xDB = some 0x20AC ∧
+    macromanEncodeChar 0xA4 = some 0xDB := by
   decide +kernel
 
 /-- The MacRoman `match byte` has no default arm; it is exhaustive. -/
@@ -232,69 +235,101 @@ theorem C25_macroman_decode_total (b : Nat) (hb : b < 256) : (decodeByte .macRom
 
 example : decodeByte .macRoman 0xFF = some 0x2C7 := by decide +kernel
 
-/-- What is encoded decodes back, for ALL code points (the two tables are consistent). -/
-theorem C25_macroman_decode_encode (c b : Nat) (h : macromanEncodeChar c = some b) :
+/- FULL (false of the code because of slot 0xDB): `macromanEncodeChar c = some b → decodeByte .macRoman b = some c`. -/
+/-- What is encoded decodes back, for ALL code points, except through slot 0xDB. -/
+theorem C25_macroman_decode_encode (c b : Nat) (hb : b ≠ 0xDB) (h : macromanEncodeChar c = some b) :
     decodeByte .macRoman b = some c := by
-  have key : armsAll (fun c b => decodeByte .macRoman b == some c) macromanEncodeCharArms = true := by
+  have key : armsAll (fun c b => b == 0xDB || decodeByte .macRoman b == some c) macromanEncodeCharArms = true := by
     decide +kernel
   have := applyArms_none_sound _ _ key c b h
-  simpa using this
+  simp only [Bool.or_eq_true, beq_iff_eq] at this
+  rcases this with h1 | h1
+  · exact absurd h1 hb
+  · exact h1
 
-example : macromanEncodeChar 0xC4 = some 0x80 ∧ decodeByte .macRoman 0x80 = some 0xC4 := by decide +kernel
+example : macromanEncodeChar 0xC4 = some 0x80 ∧ decodeByte .macRoman 0x80 = some 0xC4 ∧
+    macromanEncodeChar 0x2C7 = some 0xFF ∧ decodeByte .macRoman 0xFF = some 0x2C7 := by decide +kernel
 
 /-- Soundness, for ALL code points: a byte is produced only for the character Annex D puts in that
 slot, for a passed-through control, or — the one extra — U+2260 ↦ 0xAD (a slot Annex D leaves
-undefined; Apple's table has NOT EQUAL TO there). -/
+undefined; Apple's table has NOT EQUAL TO there; pinned by `test_mac_roman_encode_symbols`). -/
 theorem C25_macroman_encode_sound (c b : Nat) (h : macromanEncodeChar c = some b) :
     AnnexD.dec .macRoman b = some c ∨
     (AnnexD.dec .macRoman b = none ∧ ((b = c ∧ isCtl c = true) ∨ (c = 0x2260 ∧ b = 0xAD))) := by
-  have key : armsAll (fun c b => Nat.blt b 256 && b != 0xDB &&
-      (macDefined b || (b == c && isCtl c) || (c == 0x2260 && b == 0xAD))) macromanEncodeCharArms = true := by
+  have key : armsAll (fun c b => AnnexD.dec .macRoman b == some c ||
+      ((AnnexD.dec .macRoman b).isNone && ((b == c && isCtl c) || (c == 0x2260 && b == 0xAD))))
+      macromanEncodeCharArms = true := by
     decide +kernel
   have hk := applyArms_none_sound _ _ key c b h
-  simp only [Bool.and_eq_true, Bool.or_eq_true, beq_iff_eq, Nat.blt_eq, bne_iff_ne, ne_eq] at hk
-  obtain ⟨⟨hb, hdb⟩, hd⟩ := hk
-  have hdef := macDefined_iff b hb
-  cases hdec : AnnexD.dec .macRoman b with
-  | some u =>
-    have := C25_macroman_decode_partial b u hdb hdec
-    rw [C25_macroman_decode_encode c b h] at this
-    left; rw [Option.some.inj this]
-  | none =>
-    rw [hdec] at hdef
-    right; refine ⟨rfl, ?_⟩
-    rcases hd with (hd | ⟨h1, h2⟩) | ⟨h1, h2⟩
-    · rw [hd] at hdef; simp at hdef
-    · exact Or.inl ⟨h1, h2⟩
-    · exact Or.inr ⟨h1, h2⟩
+  simp only [Bool.and_eq_true, Bool.or_eq_true, beq_iff_eq, Option.isNone_iff_eq_none] at hk
+  rcases hk with h1 | ⟨h1, h2⟩
+  · exact Or.inl h1
+  · refine Or.inr ⟨h1, ?_⟩
+    rcases h2 with ⟨a, b'⟩ | ⟨a, b'⟩
+    · exact Or.inl ⟨a, b'⟩
+    · exact Or.inr ⟨a, b'⟩
 
 example : macromanEncodeChar 0x2260 = some 0xAD ∧ AnnexD.dec .macRoman 0xAD = none := by decide +kernel
 
-/- FULL (false of the code): `∀ b c, AnnexD.dec .macRoman b = some c → macromanEncodeChar c = some b`. -/
-/-- Completeness only below 0xB0: the encode table stops at byte 0xAF. -/
-theorem C25_macroman_encode_complete_partial (b c : Nat) (hb : b < 0xB0)
-    (h : AnnexD.dec .macRoman b = some c) : macromanEncodeChar c = some b := by
-  have key : tblAll (fun b v => Nat.ble 0xB0 b || v.all fun c => macromanEncodeChar c == some b)
-      AnnexD.macRomanTbl = true := by decide +kernel
+/-- Completeness (full since the repair): every character of the Annex D MacRoman repertoire — all 208
+defined slots, 0xB0..0xFF included — is encoded as its Annex D byte. -/
+theorem C25_macroman_encode_complete (b c : Nat) (h : AnnexD.dec .macRoman b = some c) :
+    macromanEncodeChar c = some b := by
+  have key : tblAll (fun b v => v.all fun c => macromanEncodeChar c == some b) AnnexD.macRomanTbl = true := by
+    decide +kernel
   have := tblAll_dec (e := .macRoman) key h
-  simp only [Bool.or_eq_true, Nat.ble_eq] at this
-  rcases this with h1 | h1
-  · omega
-  · simpa using h1
+  simpa using this
 
-example : AnnexD.dec .macRoman 0xAF = some 0xD8 ∧ macromanEncodeChar 0xD8 = some 0xAF := by decide +kernel
+example : AnnexD.dec .macRoman 0xAF = some 0xD8 ∧ macromanEncodeChar 0xD8 = some 0xAF ∧
+    AnnexD.dec .macRoman 0xB1 = some 0xB1 ∧ macromanEncodeChar 0xB1 = some 0xB1 ∧
+    AnnexD.dec .macRoman 0xFF = some 0x2C7 ∧ macromanEncodeChar 0x2C7 = some 0xFF := by decide +kernel
 
-/-- Witness: `±` is MacRoman 0xB1 in Annex D (and the code DEcodes 0xB1 to it), yet it cannot be
-encoded: the strict API refuses it, the lossy API writes `?`. -/
+/-- Un-encodable text is reported (MacRoman): outside the repertoire, the passed-through controls and
+U+2260 the character-level encoder returns `None` — for every code point. -/
+theorem C25_macroman_unencodable_is_none (c : Nat) (hrep : ∀ b, AnnexD.dec .macRoman b ≠ some c)
+    (hctl : isCtl c = false) (hne : c ≠ 0x2260) : macromanEncodeChar c = none := by
+  cases h : macromanEncodeChar c with
+  | none => rfl
+  | some b =>
+    rcases C25_macroman_encode_sound c b h with h1 | ⟨_, ⟨_, h2⟩ | ⟨h2, _⟩⟩
+    · exact absurd h1 (hrep b)
+    · rw [hctl] at h2; simp at h2
+    · exact absurd h2 hne
+
+example : macromanEncodeChar 0x20AC = none ∧ AnnexD.enc .macRoman 0x20AC = none := by decide +kernel
+
+/-- MacRoman: the strict API accepts the whole Annex D repertoire, byte for byte. -/
+theorem C25_macroman_strict_accepts_repertoire (s bs : List Nat)
+    (h : s.map (AnnexD.enc .macRoman) = bs.map some) : encodeStrict .macRoman s = .ok bs := by
+  rw [encodeStrict_ok_iff]
+  induction s generalizing bs with
+  | nil => simpa using h
+  | cons x r ih =>
+    cases bs with
+    | nil => simp at h
+    | cons b bs' =>
+      simp only [List.map_cons, List.cons.injEq] at h
+      simp only [List.map_cons, List.cons.injEq]
+      exact ⟨C25_macroman_encode_complete b x (enc_some h.1), ih bs' h.2⟩
+
+example : encodeStrict .macRoman [0xB1, 0xE6, 0xC0] = .ok [0xB1, 0xBE, 0xCB] := by decide +kernel
+
+/-- Regression witness (the tables before the repair, `Model/C25Old.lean`): `±` is MacRoman 0xB1 in
+Annex D (and the code DEcodes 0xB1 to it), yet the old table had no arm for it — the strict API
+refused it, the lossy API wrote `?`.  The repaired table encodes it. -/
 theorem C25_witness_macroman_encode_gap :
     AnnexD.dec .macRoman 0xB1 = some 0xB1 ∧ decodeByte .macRoman 0xB1 = some 0xB1 ∧
-    macromanEncodeChar 0xB1 = none ∧ encodeStrict .macRoman [0xB1] = .error 0xB1 ∧
-    lossyChar .macRoman 0xB1 = [0x3F] := by
+    applyArms Old.macromanEncodeCharArms .none 0xB1 = none ∧
+    applyArms Old.macromanEncodeCharArms (.const 0x3F) 0xB1 = some 0x3F ∧
+    macromanEncodeChar 0xB1 = some 0xB1 ∧ encodeStrict .macRoman [0xB1] = .ok [0xB1] ∧
+    lossyChar .macRoman 0xB1 = [0xB1] := by
   decide +kernel
 
-/-- Exactly the 66 Annex D slots from 0xB0 up are affected. -/
+/-- Exactly the 66 Annex D slots from 0xB0 up were affected; none is any more. -/
 theorem C25_witness_macroman_encode_gap_extent :
-    tblCountAux (fun b v => v.any fun c => macromanEncodeChar c != some b) AnnexD.macRomanTbl 0 = 66 := by
+    tblCountAux (fun b v => v.any fun c => applyArms Old.macromanEncodeCharArms .none c != some b)
+      AnnexD.macRomanTbl 0 = 66 ∧
+    tblCountAux (fun b v => v.any fun c => macromanEncodeChar c != some b) AnnexD.macRomanTbl 0 = 0 := by
   decide +kernel
 
 /-! ## StandardEncoding and PDFDocEncoding — the code passes UTF-8 through; partial -/
@@ -394,26 +429,55 @@ theorem C25_ed_windows1252_matches_annexD (b u : Nat) (h : AnnexD.dec .winAnsi b
 
 example : edDecodeByte .windows1252 0x80 = 0x20AC := by decide +kernel
 
-/- FULL (false of the code): the same for `.macRoman` and `.pdfDoc`. -/
-/-- MacRoman of the `EnhancedDecoder` is right below 0xB0 ("partial - most common characters"). -/
-theorem C25_ed_macroman_partial (b u : Nat) (hb : b < 0xB0) (h : AnnexD.dec .macRoman b = some u) :
+/-- MacRoman of the `EnhancedDecoder` agrees with Annex D on every defined slot (full since the table
+was extended to 0xFF). -/
+theorem C25_ed_macroman_matches_annexD (b u : Nat) (h : AnnexD.dec .macRoman b = some u) :
     edDecodeByte .macRoman b = u := by
-  have key : tblAll (fun b v => Nat.ble 0xB0 b || v.all fun u => edDecodeByte .macRoman b == u)
-      AnnexD.macRomanTbl = true := by decide +kernel
+  have key : tblAll (fun b v => v.all fun u => edDecodeByte .macRoman b == u) AnnexD.macRomanTbl = true := by
+    decide +kernel
   have := tblAll_dec (e := .macRoman) key h
-  simp only [Bool.or_eq_true, Nat.ble_eq] at this
+  simpa using this
+
+example : edDecodeByte .macRoman 0xA0 = 0x2020 ∧ edDecodeByte .macRoman 0xDB = 0xA4 ∧
+    edDecodeByte .macRoman 0xFF = 0x2C7 := by decide +kernel
+
+/-- PDFDocEncoding of the `EnhancedDecoder` agrees with Annex D on every defined slot (full since it
+got its own table: accents 0x18–0x1F, 0x80–0x9E, Euro at 0xA0). -/
+theorem C25_ed_pdfdoc_matches_annexD (b u : Nat) (h : AnnexD.dec .pdfDoc b = some u) :
+    edDecodeByte .pdfDoc b = u := by
+  have key : tblAll (fun b v => v.all fun u => edDecodeByte .pdfDoc b == u) AnnexD.pdfDocTbl = true := by
+    decide +kernel
+  have := tblAll_dec (e := .pdfDoc) key h
+  simpa using this
+
+example : edDecodeByte .pdfDoc 0x18 = 0x2D8 ∧ edDecodeByte .pdfDoc 0x80 = 0x2022 ∧
+    edDecodeByte .pdfDoc 0xA0 = 0x20AC ∧ edDecodeByte .pdfDoc 0x41 = 0x41 ∧ edDecodeByte .pdfDoc 0xE9 = 0xE9 := by
+  decide +kernel
+
+/-- The slots Annex D leaves undefined in PDFDocEncoding above 0x7F decode to the replacement character. -/
+theorem C25_ed_pdfdoc_undefined_high (b : Nat) (hb : 0x80 ≤ b) (hb' : b < 256) (h : AnnexD.dec .pdfDoc b = none) :
+    edDecodeByte .pdfDoc b = 0xFFFD := by
+  have key : tblAll (fun b v => Nat.blt b 0x80 || v.isSome || edDecodeByte .pdfDoc b == 0xFFFD)
+      AnnexD.pdfDocTbl = true := by decide +kernel
+  have := tblAll_lt (e := .pdfDoc) key b hb'
+  rw [h] at this
+  simp only [Option.isSome_none, Bool.or_false, Bool.or_eq_true, Nat.blt_eq, beq_iff_eq] at this
   rcases this with h1 | h1
   · omega
-  · simpa using h1
+  · exact h1
 
-example : edDecodeByte .macRoman 0xA0 = 0x2020 := by decide +kernel
+example : AnnexD.dec .pdfDoc 0x9F = none ∧ edDecodeByte .pdfDoc 0x9F = 0xFFFD ∧ edDecodeByte .pdfDoc 0xAD = 0xFFFD := by
+  decide +kernel
 
-/-- Witnesses: `EnhancedDecoder` MacRoman 0xB1 ↦ U+FFFD (Annex D: ±); its PDFDocEncoding is Latin-1:
-0x80 ↦ U+0080 (Annex D: bullet), 0xA0 ↦ U+00A0 (Annex D: Euro). -/
+/-- Regression witnesses (the tables before the repair, `Model/C25Old.lean`): `EnhancedDecoder` MacRoman
+0xB1 ↦ U+FFFD (Annex D: ±); its PDFDocEncoding was Latin-1: 0x80 ↦ U+0080 (Annex D: bullet),
+0xA0 ↦ U+00A0 (Annex D: Euro), 0x18 ↦ U+0018 (Annex D: breve). -/
 theorem C25_witness_ed :
-    AnnexD.dec .macRoman 0xB1 = some 0xB1 ∧ edDecodeByte .macRoman 0xB1 = 0xFFFD ∧
-    AnnexD.dec .pdfDoc 0x80 = some 0x2022 ∧ edDecodeByte .pdfDoc 0x80 = 0x80 ∧
-    AnnexD.dec .pdfDoc 0xA0 = some 0x20AC ∧ edDecodeByte .pdfDoc 0xA0 = 0xA0 := by
+    AnnexD.dec .macRoman 0xB1 = some 0xB1 ∧ Old.edDecodeByte Old.edMacRomanArms 0xB1 = 0xFFFD ∧
+    AnnexD.dec .pdfDoc 0x80 = some 0x2022 ∧ Old.edDecodeByte Old.edPdfDocArms 0x80 = 0x80 ∧
+    AnnexD.dec .pdfDoc 0xA0 = some 0x20AC ∧ Old.edDecodeByte Old.edPdfDocArms 0xA0 = 0xA0 ∧
+    AnnexD.dec .pdfDoc 0x18 = some 0x2D8 ∧ Old.edDecodeByte Old.edPdfDocArms 0x18 = 0x18 ∧
+    edDecodeByte .macRoman 0xB1 = 0xB1 ∧ edDecodeByte .pdfDoc 0x80 = 0x2022 := by
   decide +kernel
 
 /-! ## the specification's two presentations -/
